@@ -1,36 +1,36 @@
 import json, os, shutil, glob
-W='j'
+W='k'
 rows = {
- 'C01': ("32-bit integers stored in place in a large-format JSON container always printed as unsigned",
-         "a JSON document of 64 KiB or more (large format) with a direct member between -2^31 and -32769",
-         "C01: value:type245"),
- 'C02': ("the in-transaction flag became a Streamer field that is not reset when a new Stream call starts",
-         "an attempt that ends inside a transaction (handler refuses a BEGIN..XID transaction and the application steps over it with SetBinlogPosition) followed by an autocommitted unit",
-         "C02: grouping; C04: lost - **missed at first** (the application that steps over a refused transaction with SetBinlogPosition(refused.NextPosition) is now part of the C02 and fault-family scenarios)"),
- 'C03': ("events with next_position 0 skipped as 'fabricated by the dump thread', including the fake rotate that announces a new file",
-         "a switch to the next binlog file that is not announced by a real ROTATE event (file ended by STOP or a crash)",
-         "C03: chain, crash-restart-exactly-once"),
- 'C04': ("ROTATE decoded straight into the resume position, which is zeroed when the decode fails",
-         "an attempt that ends on a ROTATE event which passes the validity gate but has fewer than 8 body bytes",
-         "C04: resume-coordinate - **missed at first** (undecodable events of known types - short ROTATE, QUERY with overflowing schema name or status variables, FORMAT_DESCRIPTION of version 3 or with a 10-byte header - are now injected next to the unsupported event types)"),
- 'C05': ("reader context derived from the caller's only if the caller's context can be cancelled",
-         "Stream(context.Background(), ...) ended by a parser-side cause while the reader holds an event",
-         "C05: error-blocks, goroutine-leak:reader - **missed at first** (a sixth of the attempts with a non-cancel cause now pass context.Background(); if the cause never happens the master closes the connection)"),
- 'C06': ("handler error on the empty transaction of a ROLLBACK ignored",
-         "a BEGIN..ROLLBACK unit whose (empty) delivery the handler refuses",
-         "C06: stream-nil-on-failure - **missed at first** (rolled-back transactions were only generated for C02; they are now part of every family)"),
- 'C07': ("position returned by the parser stored only if the handler accepted a transaction in that attempt",
-         "an attempt that accepts nothing, passes a real ROTATE and fails; the next attempt asks for <old file>:<end> instead of <new file>:4",
-         "judged NOT a violation: the request carries the stored position, and the stale position is equivalent (no committed transaction lies between the two coordinates; the master answers both with the same stream). No check alarms (exit 0), which is the right answer; kept as a benign case"),
- 'C08': ("one-entry memo of the last formatted TIMESTAMP second whose miss path hands out the memo's own buffer",
-         "two TIMESTAMP values with the same second in different transactions and a consumer that overwrites the first",
-         "C08: later-delivery-corrupted"),
- 'C15': ("table-id map recreated at every FORMAT_DESCRIPTION event",
-         "a rows event after a binlog file switch that relies on a table map announced before the switch",
-         "C15: mapper-call"),
- 'C17': ("validity gate also rejects events whose next_position lies within 0..3 of event_length",
-         "a well-formed event with event_length <= next_position <= event_length+3",
-         "C17: rejected-well-formed - **missed at first** (ignorable events of unknown type now carry arbitrary next_position values, in particular values next to their own length, and C17 judges attempts in which nothing malformed was delivered: they must not end with an error)"),
+ 'C01': ("FORMAT_DESCRIPTION events after the first one of a dump are skipped (format frozen)",
+         "one dump that crosses into a file whose checksum setting differs from the first file's",
+         "C01: count, panic, query, row-count, stream-result"),
+ 'C02': ("status-variable block length of a QUERY event read as one byte",
+         "a boundary statement (BEGIN/COMMIT/...) whose status-variable block is 256 bytes or longer",
+         "C02: early-delivery, grouping, rollback-delivered"),
+ 'C03': ("events whose header server_id equals the replica's own id dropped, offset moved past them",
+         "a binlog in which some transactions carry the replica's own server id",
+         "C03: chain, content:count, crash-restart-exactly-once"),
+ 'C04': ("a ROTATE that arrives while a transaction is open does not move the resume position",
+         "a file that ends with an unfinished transaction, a transaction accepted in the next file, then a retry",
+         "C04: reordered"),
+ 'C05': ("reader posts a package-level *Error sentinel that msgf mutates",
+         "two reader goroutines leaving through the ctx.Done branch without a happens-before edge (second Stream call without Error() in between)",
+         "C05: race - **missed at first** (race mode now skips the optional Error() call between attempts in a third of the runs)"),
+ 'C06': ("Stream returns nil when parseEvents failed while the caller's context is cancelled",
+         "a handler / mapper / decode failure returned while the context is already cancelled",
+         "C06: stream-nil-on-failure - **missed at first** (a handler call that returned an error or a failed table lookup must now yield a non-nil Stream result whatever other causes overlap; before, overlapping causes that began with a cancel were not judged)"),
+ 'C07': ("a ROTATE directly after another ROTATE skipped, FORMAT_DESCRIPTION does not clear the flag",
+         "a binlog file holding only its FORMAT_DESCRIPTION and the closing ROTATE, then an accepted transaction, then a retry",
+         "C07: offset"),
+ 'C08': ("delivered Events slice is the parser's scratch slice when len == cap (16, 32, ...)",
+         "a transaction of exactly 16 (32, 64) changes that the handler retains, followed by any further event",
+         "C08: mutated-after-delivery"),
+ 'C15': ("Bitmap.BitCount counts set padding bits of the last byte",
+         "a partial row image whose columns-present bitmap has its unused bits set to 1",
+         "C15: panic (C01 value rules as well) - **missed at first** (the encoder zero-padded every bitmap; unused bits of row NULL bitmaps - as the server writes them - columns-present bitmaps and the table-map nullability bitmap are now set in most histories)"),
+ 'C17': ("StripChecksum clips the capacity of the stripped event",
+         "a gate-accepted bare header (19/20 bytes, consistent length) of type XID on a checksummed stream",
+         "C17: panic - **missed at first** (bare headers of 19..22 bytes that pass the gate are now injected; only the no-panic clause is judged for them)"),
 }
 for p,(chg,needs,caught) in rows.items():
     src=f'/tmp/wt-{p}-{W}/_seeded'
